@@ -13,7 +13,14 @@ NA = {
 }
 PENDING = "check not built yet (implementation in progress); the design is in DESIGN.md section 4"
 
+VPNOTE = 'Trusted: clang AST, the path engine, the fact language of sa/vp.py (what counts as a reducing producer / accepted test is listed there), buffer identity by carve expression; frozen per-function tables (point-validation level, accepted alternative forms) carry one reason each. Decides necessary structural conditions, not the numerical statements of the property.'
 CHECKS = {
+ "C02": dict(level="other",
+   text="Validation-presence analysis on every path of the bign signing/verification/key-transport/IBS functions: secret scalars are sampled modulo the group order; a loaded private key passes 0<d<q before any use; every operand of a modular routine whose own ASSERT demands operand<modulus is provably reduced at the call (range test with failing arm leaving, reducing producer, conditional subtraction) -- which is exactly the 'hash values >= q' and 's1 range' clauses; decoded points are validated before EC arithmetic; every success return of a verifier/unwrap is dominated by its accepting comparisons. The numerical clauses (signature equals the standard's value, DH symmetry, round trips) are declined.",
+   design="4/C02", technique="validation-presence dataflow (must-pass-through on all CFG paths)", note=VPNOTE),
+ "C16": dict(level="other",
+   text="Same validation-presence templates as C02 applied to bign96.c, g12s.c, dstu.c, pfok.c: sampling modulus, private-key range before use (pfok's r-bit form accepted), operands of modular routines reduced, public keys reduced/validated, signature components non-zero and below the order, success of each verifier/validator dominated by its accepting comparisons. Completeness of sign-then-verify, compression round trip and key-agreement equality are value statements and are declined.",
+   design="4/C16", technique="validation-presence dataflow (must-pass-through on all CFG paths)", note=VPNOTE),
  "C09": dict(level="other",
    text="Path-sensitive typestate analyses on every function of src/: (b) each of the ~117 allocation sites is null-tested before any use, the failure arm returns a failure, nothing stays allocated on any failing return and no block is lost by v = blobResize(v,..); (c) in the eight unwrap / secure-messaging-unwrap functions the caller's output is never left written at an authentication-failure return and every success return that released data passed an accepting verifier on that path; (d) every err_t result is tested or returned (three sites frozen with reasons); (a) scalar preconditions asserted by callees are implied by the public caller's argument checks. These are necessary structural conditions of the error contract, decided on all paths; the mapping of header prose to error codes is not decided.",
    design="4/C09", technique="all-paths typestate / dataflow on the CFG + guard-implies-precondition check",
